@@ -36,8 +36,10 @@ class ConstraintViolatedError(Exception):
 
 class ValueConstraintViolatedError(ConstraintViolatedError):
     def __init__(self, constraint, value, **kwargs):
+        # a response may have to be parsed without knowing the command code at all (value is None)
+        value_str = "None" if value is None else f"0x{int(value):x} = {int(value)}"
         super().__init__(
-            f"Parsed bad value for {constraint.tpm_type.__name__} {constraint.constraint_path} = 0x{int(value):x} = {int(value)} not in {constraint.valid_values}",
+            f"Parsed bad value for {constraint.tpm_type.__name__} {constraint.constraint_path} = {value_str} not in {constraint.valid_values}",
             **kwargs,
         )
         self.constraint = constraint
